@@ -355,7 +355,16 @@ impl SwarmDriver {
         let pretty_key = PrettyPrintRecordKey::from(&peer_record.record.key).into_owned();
 
         if let Entry::Occupied(mut entry) = self.pending_get_record.entry(query_id) {
-            let (_key, _senders, result_map, cfg) = entry.get_mut();
+            let (key, _senders, result_map, cfg) = entry.get_mut();
+
+            // only a copy under the key that was asked for counts as an answer
+            if peer_record.record.key != *key {
+                warn!(
+                    "For record {:?} task {query_id:?}, ignoring a copy from {peer_id:?} that is under another key: {pretty_key:?}",
+                    PrettyPrintRecordKey::from(&*key)
+                );
+                return Ok(());
+            }
 
             if !cfg.expected_holders.is_empty() {
                 if cfg.expected_holders.remove(&peer_id) {
